@@ -71,6 +71,11 @@ func inlineExternal(fn *ssa.Function) bool {
 	if !inlineExternalPkgs[fn.Pkg.Pkg.Path()] {
 		return false
 	}
+	if fn.Pkg.Pkg.Path() == "encoding/binary" {
+		// only the fixed-width byte-order helpers (straight-line code); Read and
+		// Write use reflection
+		return fn.Signature.Recv() != nil && (strings.Contains(fn.Signature.Recv().Type().String(), "littleEndian") || strings.Contains(fn.Signature.Recv().Type().String(), "bigEndian"))
+	}
 	if fn.Pkg.Pkg.Path() == "bytes" {
 		switch fn.Name() {
 		case "NewBuffer", "Len", "Next", "empty", "Reset":
@@ -481,8 +486,25 @@ func (ex *Exec) doAppend(st *State, fr *Frame, c *ssa.CallCommon, args []Val, po
 	switch s := args[0].(type) {
 	case *Agg:
 		base = ex.viewSlice(s, t)
+	case *SliceI:
+		// a slice over a whole local array (len == cap): appending anything
+		// reallocates, so the result is a fresh backing store holding a copy
+		if s.Len != s.Cap {
+			ex.unsupportedf("append to interior slice with spare capacity")
+		}
+		iv := ex.viewSlice(s, t)
+		fresh := ex.newSliceRaw(st, t, s.Len, s.Len, "appbase", true).(*Agg)
+		fv := ex.viewSlice(fresh, t)
+		if k, ok := constBV(s.Len); ok && k <= unrollLimit {
+			for i := uint64(0); i < k; i++ {
+				ex.store(st, fv.elemAddr(bvU(i, 64)), ex.load(st, iv.elemAddr(bvU(i, 64))))
+			}
+		} else {
+			ex.unsupportedf("append to interior slice of symbolic length")
+		}
+		base = fv
 	default:
-		ex.unsupportedf("append to interior slice")
+		ex.unsupportedf("append to %T", args[0])
 	}
 	read, n := ex.elemReader(st, args[1], c.Args[1].Type())
 	newLen := ex.vc.Bind("alen", BV(64), app("bvadd", base.ln, n))
